@@ -7,6 +7,9 @@
 //                                block, then print()            -> "<ticks> <text>" | "NOW"
 //   "L <secs> <nsecs> <dplaces>" GetTimeAsStringMS(Tickval(secs, nsecs), dplaces, gm and localtime)
 //                                -> "<gm text>|<local text>"
+//   "S <secs>,<nsecs>,<dplaces>,<gm> ..."  the same renderer called once per item, in order, in this
+//                                process (the function is specified as stateless)
+//                                -> "<text>|<text>|..."
 //   "G <day>"                    Tickval(day * Tickval::day).get_tm()  (gmtime_r)
 //                                -> "<year> <month> <day> <hour> <min> <sec>"
 // Signed overflow / negative shift in the inline codecs is reported by UBSan and execution
@@ -133,6 +136,22 @@ int main()
 						gm = "OPERATOR-MISMATCH:" + gm;
 				}
 				out = esc(gm, true) + '|' + esc(local, true);
+			}
+			else if (what == "S")
+			{
+				std::string item;
+				bool first(true);
+				while (is >> item)
+				{
+					const std::vector<std::string> f(split(item, ','));
+					if (f.size() != 4) { out = "BAD-CASE"; break; }
+					const Tickval tv(static_cast<time_t>(std::stoll(f[0])), static_cast<long>(std::stoll(f[1])));
+					std::string text;
+					GetTimeAsStringMS(text, &tv, static_cast<unsigned>(std::stoul(f[2])), f[3] == "1");
+					if (!first) out += '|';
+					out += esc(text, true);
+					first = false;
+				}
 			}
 			else if (what == "G")
 			{
